@@ -248,6 +248,44 @@ func (w *c17World) opNew() {
 	w.record(fmt.Sprintf("ONew %d %s %s %s %s %s %s %d%%nat %d%%nat %s %s", mt, coqBytes(src), coqBytes(dst), coqBytes(sb), coqBytes(msg), coqBytes(apx), coqBytes(nonce), off, ovh, sc, bc), 0, desc)
 }
 
+// opFailedNew: a build that is refused after the header was written (message over the limit or
+// empty, switch block over 255 bytes, appendix over the limit).  It must leave no trace: the next
+// frames built or parsed on pooled structs and buffers show nothing of it.
+func (w *c17World) opFailedNew() {
+	c := w.c
+	src, dst := append([]byte{0xfd, 0x11}, randBytes(c, 14)...), append([]byte{0xfd, 0x22}, randBytes(c, 14)...)
+	var sb, msg, apx []byte
+	msg = randBytes(c, 20)
+	switch c.Rng.IntN(4) {
+	case 0:
+		msg = randBytes(c, 10001+c.Rng.IntN(50))
+	case 1:
+		msg = nil
+	case 2:
+		sb = randBytes(c, 256+c.Rng.IntN(10))
+	default:
+		apx = randBytes(c, 10001+c.Rng.IntN(50))
+	}
+	before := w.observeAll()
+	var err error
+	var f *frame.FrameV1
+	pan, _ := recoverPanic(func() {
+		f, err = w.b.NewFrameV1(netip.AddrFrom16([16]byte(src)), netip.AddrFrom16([16]byte(dst)), frame.NetworkTraffic, sb, msg, apx)
+	})
+	desc := fmt.Sprintf("FailedNew(msg=%d,sb=%d,apx=%d)", len(msg), len(sb), len(apx))
+	if pan {
+		w.violate("NewFrameV1 panicked on an oversized input: "+desc, "new-panic")
+		return
+	}
+	if err == nil {
+		// accepted after all (limits are the implementation's): treat as a live frame that is released at once
+		f.ReturnToPool()
+		return
+	}
+	w.desc = append(w.desc, desc)
+	w.othersUnchanged(before, -1, desc)
+}
+
 func (w *c17World) opParse() {
 	c := w.c
 	// build valid frame bytes with a scratch builder, then feed them as the link reader does
@@ -495,6 +533,10 @@ func runC17(c *Ctx) error {
 			case r < 36:
 				if released {
 					reused = true
+				}
+				if c.Rng.IntN(4) == 0 {
+					w.opFailedNew()
+					c.Count("op:failed-new")
 				}
 				w.opParse()
 				c.Count("op:parse")
